@@ -184,6 +184,22 @@ CHECKS = {
          "decorator's crash points; SIGKILL inside bbolt transactions is not driven.",
     technique="TLA+ persistence model + TLC; fault/crash-annotated replay on inmem+bbolt; TLC trace validation",
     ref="5.10"),
+ "C11": dict(
+    level="model_checking",
+    text="Remote.tla: TLC checks that the server's class->status-code table composed with the client's code->class table is "
+         "the identity for every operation and every class the wrapped state can produce, and that the Unimplemented "
+         "fallback of the teardown RPCs is sticky. TLC-generated request sequences (all store requests plus Teardown / "
+         "TeardownAndDestroy) are executed in lock step on a state directly and through client adapter -> real gRPC -> server "
+         "on a second state, against a full and a legacy server, with five identical watches (single, bootstrap, label "
+         "selectors incl. inverted set membership, aggregated) on both sides; TLC judges (TraceRemote.tla on top of Store.tla) "
+         "equality of class, predicate vector, written-back version/owner/update-time fact, readiness, contents, watch streams "
+         "event for event, stickiness, and agreement of the direct side with the sequential spec. Malformed.tla enumerates the "
+         "wire-level request lattice (~350 shapes); a raw client sends every shape to a server in a child process; TLC judges "
+         "`process alive` and `malformed => error status`.",
+    note="Trusted: TLC, gRPC. Sequential sequences only (no racing calls). Watch streams are compared after the remote side "
+         "caught up (5 s budget).",
+    technique="TLA+ code tables / request lattice + TLC; differential lock-step replay over real gRPC; child-process fault probe; TLC trace validation",
+    ref="5.11"),
 }
 
 NOT_YET = "check not built yet in this round (planned, see DESIGN.md section 5)"
